@@ -353,7 +353,12 @@ theorem table_shape :
     Gen.Dispatch.pyExceptionPrefix = "org.txdbus.PythonException." ∧
     Gen.Dispatch.invalidErrorName = "org.txdbus.InvalidErrorName" ∧
     Gen.Dispatch.unboundException = "NotImplementedError" ∧
-    Gen.Dispatch.attrPrefix = "dbus_" := by
+    Gen.Dispatch.attrPrefix = "dbus_" ∧
+    -- the order of checks and the reply rule the model mirrors (derived by probing the dispatcher)
+    Gen.Dispatch.checkOrder = ["ping", "introspect", "object", "managed", "method", "signature"] ∧
+    Gen.Dispatch.dispatchedExpectingReplyAnswered = true ∧
+    Gen.Dispatch.dispatchedNoReplySilent = true ∧
+    Gen.Dispatch.lookupFailureAnsweredWhenNoReply = true := by
   decide
 
 /-- "The caller's unique name when it asks for it": a method asks for it iff its positional
